@@ -96,8 +96,9 @@ def build():
         D.append({"kind": "enum", "name": name, "sorted": sorted_, "variants": variants})
         return ("named", len(D) - 1, name)
 
-    def var(name, fields=(), steps=(), transient=False, shape="struct"):
-        return {"name": name, "fields": list(fields), "steps": list(steps), "transient": transient, "shape": shape}
+    def var(name, fields=(), steps=(), transient=False, shape="struct", disc=None):
+        return {"name": name, "fields": list(fields), "steps": list(steps), "transient": transient, "shape": shape,
+                "disc": disc}
 
     u8, i32, u64, s, b, ch = P("u8"), P("i32"), P("u64"), P("str"), P("bool"), P("char")
     # 0-3: plain shapes
@@ -200,6 +201,22 @@ def build():
     ]
     for i, (fs, st) in enumerate(h2):
         rec(f"H2v{i}", fs, st)
+    # explicit discriminants do not enter the format: the constructor index is the position
+    enum("EDisc", [var("Low", shape="unit", disc=1), var("Mid", shape="unit", disc=5), var("High", shape="unit", disc=10)])
+    enum("EDiscS", [var("Low", shape="unit", disc=7), var("Mid", shape="unit", disc=3), var("High", shape="unit", disc=200)], True)
+    # transient positional fields inside tuple variants (the persisted ones keep their declaration numbers)
+    enum("ETupTr", [var("Segment", [F("field0", P("u32")), F("field1", P("u32"), transient="n0"), F("field2", P("u32"))], shape="tuple"),
+                    var("Entry", [F("field0", u64), F("field1", b, transient="n0"), F("field2", s)], shape="tuple"),
+                    var("Lead", [F("field0", u8, transient="n9"), F("field1", s), F("field2", u8, transient="n1")], shape="tuple")])
+    # a removed Option field followed in its chunk by a field that was made optional later (older readers skip
+    # the removed field by name and must still find the made-optional entry of the field behind it)
+    h3 = [
+        ([F("nickname", ("opt", s)), F("age", P("u32")), F("score", P("u16"))], []),
+        ([F("age", ("opt", P("u32"))), F("score", P("u16"))], [("rem", "nickname"), ("opt", "age")]),
+        ([F("age", ("opt", P("u32"))), F("score", P("u16")), F("tail", u8)], [("rem", "nickname"), ("opt", "age"), ("add", "tail", "n4")]),
+    ]
+    for i, (fs, st) in enumerate(h3):
+        rec(f"H3v{i}", fs, st)
     # a history on an enum VARIANT, compiled version by version (the variant's own metadata static)
     enum("HEv0", [var("A", [F("a", u8)]), var("B", shape="unit")])
     enum("HEv1", [var("A", [F("a", u8), F("n", i32)], [("add", "n", "z5")]), var("B", shape="unit")])
@@ -315,6 +332,10 @@ def build():
                 f = rng2.choice(removable)
                 f["transient"] = dflt2(f["ty"])
                 steps.append(("tra", f["name"]))
+        if positional and fs and rng2.random() < 0.35:
+            f = rng2.choice(fs)
+            if f["transient"] is None and not any(st[1] == f["name"] for st in steps):
+                f["transient"] = dflt2(f["ty"])
         if positional:
             ren = {f["name"]: f"field{i}" for i, f in enumerate(fs)}
             for f in fs:
@@ -397,7 +418,10 @@ def emit(D):
         if d["kind"] == "rec":
             st = rust_steps(d["steps"], d["fields"], D)
             o.append("#[derive(BinaryCodec)]")
-            if st:
+            if st and len(st) >= 2 and (len(d["name"]) + len(st)) % 3 == 0:
+                for one in st:            # the same history declared with one attribute per step
+                    o.append(f"#[evolution({one})]")
+            elif st:
                 o.append(f"#[evolution({', '.join(st)})]")
             if not d["fields"]:
                 o.append(f"pub struct {d['name']};")
@@ -418,12 +442,19 @@ def emit(D):
                 st = rust_steps(v["steps"], v["fields"], D)
                 if v["transient"]:
                     o.append("    #[transient]")
-                if st:
+                if st and len(st) >= 2 and (len(v["name"]) + len(st)) % 2 == 0:
+                    for one in st:
+                        o.append(f"    #[evolution({one})]")
+                elif st:
                     o.append(f"    #[evolution({', '.join(st)})]")
                 if v["shape"] == "unit":
-                    o.append(f"    {v['name']},")
+                    o.append(f"    {v['name']}{' = ' + str(v['disc']) if v.get('disc') is not None else ''},")
                 elif v["shape"] == "tuple":
-                    o.append(f"    {v['name']}({', '.join(rust_ty(f['ty'], f['spelling']) for f in v['fields'])}),")
+                    parts = []
+                    for f in v["fields"]:
+                        tr = f"#[transient({rust_val(f['ty'], parse(f['transient']), D)})] " if f["transient"] is not None else ""
+                        parts.append(tr + rust_ty(f["ty"], f["spelling"]))
+                    o.append(f"    {v['name']}({', '.join(parts)}),")
                 else:
                     o.append(f"    {v['name']} {{")
                     for f in v["fields"]:
